@@ -17,6 +17,10 @@ fn universe(tier: Tier) -> Vec<V> {
         V::Int(0),
         V::Int(1),
         V::Int(i64::MAX),
+        // neighbours that round to the same double: integers are compared as integers
+        V::Int(i64::MAX - 1),
+        V::Int(9007199254740993),
+        V::Int(9007199254740992),
         V::Float(-1.5),
         V::Float(-0.0),
         V::Float(0.0),
@@ -51,7 +55,8 @@ fn universe(tier: Tier) -> Vec<V> {
             V::List(vec![V::s("a")]),
             m(vec![("k", V::Int(1))]),
             m(vec![("k", V::Int(2))]),
-            V::Int(9007199254740993),
+            V::Int(-9007199254740993),
+            V::Int(-9007199254740992),
             V::Float(9007199254740992.0),
             V::s("\u{e4}"),
             V::List(vec![V::List(vec![V::Int(1)])]),
